@@ -271,7 +271,13 @@ def analyse(prog, rep):
         g = flat_guards(ev.guards)
         w = "%s@%d" % (where, ev.line)
         cons = "early exit from the walk: %s%s" % (ev.kind, " inside an entry loop" if ev.loops else "")
-        margin_after = any(c["coords"] == "margin" and c["ev"].seq > ev.seq for c in cases)
+        def compatible(g2):
+            """no condition of the exit's path is negated on the other path (the margin it would skip must be reachable
+            from where the exit is taken: a later margin under `base_rowids is not None` is not skipped by a return
+            taken under `base_rowids is None`)"""
+            have = set(g)
+            return not any((c2, not p2) in have for c2, p2 in flat_guards(g2))
+        margin_after = any(c["coords"] == "margin" and c["ev"].seq > ev.seq and compatible(c["ev"].guards) for c in cases)
         if ev.kind == "break":
             if exhausted(g):
                 rep.proved("R-C14-h", w, cons, "taken only when every base row lies in the current entry: the remaining entries of a 1-D dimension cannot intersect (disjoint by C07)")
@@ -279,6 +285,8 @@ def analyse(prog, rep):
                 rep.undecided("R-C14-h", w, cons, "a break skips the remaining entries; the analysis cannot decide whether they could still intersect")
         elif base_empty(g):
             rep.proved("R-C14-h", w, cons, "taken only when there are no base rows: nothing further could be presented")
+        elif ev.kind == "return" and not ev.loops and not any(c["ev"].seq > ev.seq and compatible(c["ev"].guards) for c in cases):
+            rep.proved("R-C14-h", w, cons, "no presentation or recursion that this path could still reach follows the return (guard-clause style: it ends the branch it belongs to)")
         elif margin_after and base_nonempty(g):
             rep.violated("R-C14-h", w, cons, "the %s is taken on a path where base rows exist (or the walk is at the top level), and it skips the margin of this activation%s" % (ev.kind, " and the remaining entries" if ev.loops and not exhausted(g) else ""),
                          witness={"inputs": "3-D cube in which the exit condition holds for one entry of the middle dimension: the margin cell (a, -1, c) is never presented and differencing makes the common cells wrong"})
